@@ -672,7 +672,7 @@ Proof.
     pose proof (sizes_ok_wf _ Hsz) as Hp.
     unfold run_C55, prop_C55. rewrite Hd, Hd2. unfold out2_C55.
     destruct (client_stream resp) as [st code] eqn:Ec.
-    destruct (parse_reply st code) as [[[rterr status] rbody]|] eqn:Epr; [|discriminate].
+    destruct (parse_reply st code) as [[[[rterr status] rtext] rbody]|] eqn:Epr; [|discriminate].
     match goal with |- bad_input ?o || _ = true => assert (Hb : bad_input o = false) by reflexivity; rewrite Hb end.
     cbn [orb].
     rewrite request_roundtrip by exact Hp. rewrite bytes_eqb_refl. cbn [andb].
@@ -681,7 +681,7 @@ Proof.
     destruct (has_other_content resp) eqn:Eo; [discriminate|].
     pose proof (stdout_only_partial resp Eo) as Hs. rewrite Ec in Hs. cbn [fst] in Hs.
     pose proof (end_request_eof resp Ee) as He. rewrite Ec in He. cbn [snd] in He.
-    subst st code. rewrite Epr. rewrite !Z.eqb_refl, bytes_eqb_refl. cbn [andb].
+    subst st code. rewrite Epr. rewrite !Z.eqb_refl, !bytes_eqb_refl. cbn [andb].
     destruct (rterr =? 0); reflexivity.
 Qed.
 
